@@ -5,7 +5,44 @@ from .fuse import rel
 LETTERS = "abcdefghijklmnopqrstuvwxyz"
 
 
+def stored_sectors(desc):
+    secs = gen.D.valid_sectors(desc["sym"], desc["ix"], tuple(desc["charge"]))
+    drop = set(desc.get("drop", ()))
+    return [s for k, s in enumerate(secs) if k not in drop]
+
+
+def contracts_to_something(tensors):
+    """Is there an assignment of one stored sector per tensor that agrees on every bond?  (Otherwise the whole
+    network contracts to an array without blocks and says nothing about signs.)"""
+    def rec(k, bonds):
+        if k == len(tensors):
+            return True
+        desc, legs = tensors[k]
+        for s in stored_sectors(desc):
+            ok, new = True, dict(bonds)
+            for c, l in zip(s, legs):
+                if l >= 100:
+                    if l in new and new[l] != tuple(c):
+                        ok = False
+                        break
+                    new[l] = tuple(c)
+            if ok and rec(k + 1, new):
+                return True
+        return False
+
+    return rec(0, {})
+
+
 def make_network(rng, sym, shape="chain3", kind="fermionic", dtype="float64", dangling=None, maxd=2):
+    """Tensors as (descriptor, legs); redrawn until the network contracts to an array with stored blocks."""
+    for attempt in range(60):
+        net = _make_network(rng, sym, shape, kind, dtype, dangling, maxd, sparse=0.3 if attempt < 40 else 0.0)
+        if contracts_to_something(net):
+            return net
+    return net
+
+
+def _make_network(rng, sym, shape, kind, dtype, dangling, maxd, sparse=0.3):
     """Tensors as (descriptor, legs).  Bond legs have ids >= 100 and appear on two
     tensors (the second holds the conjugate index); dangling legs have ids < 100."""
     if shape == "pair":
@@ -45,7 +82,7 @@ def make_network(rng, sym, shape="chain3", kind="fermionic", dtype="float64", da
         rng.shuffle(order)
         lg = [legs[t][o] for o in order]
         ix = [ixs[t][o] for o in order]
-        desc = gen.rand_array(rng, sym, len(ix), kind, ixs=ix, dtype=dtype, sparse=0.3,
+        desc = gen.rand_array(rng, sym, len(ix), kind, ixs=ix, dtype=dtype, sparse=sparse,
                               phases=0.3 if kind == "fermionic" else 0.0, oddpos=10 * (t + 1) + rng.randint(0, 5),
                               start=1 + 3 * t, cls="dynamic" if sym == "Z4" else "static")
         desc["fill"]["mod"] = 5
